@@ -14,12 +14,26 @@ import (
 	"github.com/irismod/service/types"
 )
 
-const nScripts = 22
+const nScripts = 26
 
 func runScript(a *App, mon *Mon, seed int64, v int) {
 	p := baseParams()
 	p.MaxRequestTimeout = 12
-	s := newSc(a, mon, fmt.Sprintf("script-%d", v), seed, p, 1_000_000, 3, "")
+	var s *Sc
+	if v == 25 {
+		// as newSc, with two accounts rich beyond 2^64 (funded before the history begins)
+		r := NewRun(a, fmt.Sprintf("script-%d", v), seed, p, mon)
+		act := MakeActors()
+		act.FundAll(r, 1_000_000_000, 1_000_000, 3)
+		huge, _ := sdk.NewIntFromString("1000000000000000000000000000000")
+		r.w.Fund("consumer1", act.Consumers[0], huge)
+		r.w.Fund("owner2", act.Owners[1], huge)
+		r.hist.Setup.BigFunds = append(r.hist.Setup.BigFunds, FundRec{"consumer1", hexs(act.Consumers[0]), huge.String()}, FundRec{"owner2", hexs(act.Owners[1]), huge.String()})
+		r.Begin()
+		s = &Sc{r: r, A: act, p: p}
+	} else {
+		s = newSc(a, mon, fmt.Sprintf("script-%d", v), seed, p, 1_000_000, 3, "")
+	}
 	o1, o2 := s.A.Owners[0], s.A.Owners[1]
 	p1, p2, p3 := s.A.SignProv[0], s.A.SignProv[1], s.A.SignProv[2]
 	cons := s.A.Consumers[0]
@@ -271,6 +285,64 @@ func runScript(a *App, mon *Mon, seed int64, v int) {
 		blocks(5)
 		answer(id, p1, p2, p3)
 		blocks(8)
+	case 22:
+		// the whole deposit is slashed away (fraction 1), the owner tops the disabled binding up
+		// again and asks for a refund before the wait is over
+		np := p
+		np.SlashFraction = sdk.OneDec()
+		s.r.ChangeParams(np)
+		s.call("svc", []sdk.AccAddress{p3}, cons, 100, 1, false, false, 0, 0)
+		s.block()
+		s.block() // times out: deposit 0, disabled now
+		s.r.Msg(types.NewMsgUpdateServiceBinding("svc", p3, coins(500), "", 0, "{}", o2), "top-up of the disabled, emptied binding")
+		s.block()
+		s.r.Msg(types.NewMsgRefundServiceDeposit("svc", p3, o2), "refund 5 s after the slash")
+		s.r.Block(10*time.Second - 1)
+		s.r.Msg(types.NewMsgRefundServiceDeposit("svc", p3, o2), "1 ns early")
+		s.r.Block(1)
+		s.r.Msg(types.NewMsgRefundServiceDeposit("svc", p3, o2), "at the deadline")
+		s.r.Restart()
+		blocks(2)
+	case 23:
+		// promotion windows with fractional-second bounds; block times on the whole seconds
+		// around them
+		p4 := s.A.SignProv[3]
+		g := genesisTime
+		win := fmt.Sprintf(`{"price":"100%s","promotions_by_time":[{"start_time":"%s","end_time":"%s","discount":"0.5"},{"start_time":"%s","end_time":"%s","discount":"0.25"}]}`, denom,
+			g.Add(10*time.Second+200*time.Millisecond).Format(time.RFC3339Nano), g.Add(20*time.Second+500*time.Millisecond).Format(time.RFC3339Nano),
+			g.Add(25*time.Second+1).Format(time.RFC3339Nano), g.Add(35*time.Second+999999999).Format(time.RFC3339Nano))
+		s.bind("svc", p4, o2, 5000, win, 1)
+		id := s.call("svc", []sdk.AccAddress{p4}, cons, 100, 1, false, true, 1, 10)
+		for b := 0; b < 10; b++ {
+			answer(id, p4)
+			s.block()
+		}
+	case 24:
+		// ten providers in one batch: every request is found at its index in the issue event
+		var ten []sdk.AccAddress
+		for i, pr := range append(append([]sdk.AccAddress{}, s.A.SignProv[3:7]...), s.A.OddProv[:6]...) {
+			s.bind("svc", pr, o2, 1000, price(fmt.Sprint(1+i%3)), 1)
+			ten = append(ten, pr)
+		}
+		id := s.call("svc", ten, cons, 100, 2, false, true, 3, 2)
+		s.block()
+		answer(id, ten[8], ten[9], ten[0])
+		blocks(6)
+	case 25:
+		// a price beyond 10^19 with a time and a volume promotion both in effect, discounts with
+		// 18 decimals: the fee is the base price times each discount, truncated once
+		whale := s.A.Consumers[0]
+		p4 := s.A.SignProv[3]
+		pr := fmt.Sprintf(`{"price":"33333333333333333333%s","promotions_by_time":[{"start_time":"%s","end_time":"%s","discount":"0.333333333333333333"}],"promotions_by_volume":[{"volume":1,"discount":"0.777777777777777777"}]}`, denom,
+			genesisTime.Format(time.RFC3339), genesisTime.Add(time.Hour).Format(time.RFC3339))
+		dep, _ := sdk.NewIntFromString("400000000000000000000")
+		s.r.Msg(types.NewMsgBindService("svc", p4, sdk.NewCoins(sdk.NewCoin(denom, dep)), pr, 1, "{}", o2), "")
+		capAmt, _ := sdk.NewIntFromString("100000000000000000000")
+		id := s.r.Msg(types.NewMsgCallService("svc", []sdk.AccAddress{p4}, whale, goodInput, sdk.NewCoins(sdk.NewCoin(denom, capAmt)), 1, false, true, 1, 4), "").NewCtxID
+		for b := 0; b < 6; b++ {
+			answer(id, p4)
+			s.block()
+		}
 	}
 	s.done()
 }
